@@ -655,3 +655,84 @@ fn k_append_strings() {
     check_append(&IndexData::StringArray(vec![String::from("a"), String::from("")]), 3, 1, &[b'a', 0, 0]);
     check_append(&IndexData::I18NString(vec![String::from("x"), String::from("yz")]), 0, 1, &[b'x', 0, b'y', b'z', 0]);
 }
+
+// ---- thorough tier: the same leaf contracts at larger bounds -----------------------------------
+#[kani::proof]
+#[kani::unwind(20)]
+fn k_take_till_nul_long() {
+    let b: [u8; 16] = kani::any();
+    let n: usize = kani::any();
+    kani::assume(n <= 16);
+    let s = &b[..n];
+    let r: nom::IResult<&[u8], &[u8], (&[u8], nom::error::ErrorKind)> = complete::take_till(|item| item == 0)(s);
+    match r {
+        Ok((rest, head)) => {
+            let mut k = 0;
+            while k < n && s[k] != 0 {
+                k += 1;
+            }
+            assert!(head.len() == k && rest.len() == n - k);
+            assert!(head.as_ptr() == s.as_ptr());
+        }
+        Err(e) => {
+            std::mem::forget(e);
+            panic!("take_till failed");
+        }
+    }
+}
+#[kani::proof]
+#[kani::unwind(20)]
+#[kani::stub(alloc::fmt::format, format_stub)]
+fn k_parse_binary_entry_long() {
+    let b: [u8; 16] = kani::any();
+    let n: usize = kani::any();
+    kani::assume(n <= 16);
+    let cnt: u32 = kani::any();
+    let mut items: Vec<u8> = Vec::new();
+    match parse_binary_entry(&b[..n], cnt, &mut items, "Bin") {
+        Ok(()) => {
+            assert!(cnt as usize <= n && items.len() == cnt as usize);
+            let mut i = 0;
+            while i < 16 {
+                if i < cnt as usize {
+                    assert!(items[i] == b[i]);
+                }
+                i += 1;
+            }
+        }
+        Err(e) => {
+            assert!(cnt as usize > n);
+            std::mem::forget(e);
+        }
+    }
+    std::mem::forget(items);
+}
+#[kani::proof]
+#[kani::unwind(10)]
+fn k_dec_u16_long() {
+    let b: [u8; 12] = kani::any();
+    let n: usize = kani::any();
+    kani::assume(n <= 12);
+    let cnt: u32 = kani::any();
+    let mut items: Vec<u16> = Vec::new();
+    let r: nom::IResult<&[u8], (), NomE> = parse_entry_data_number(&b[..n], cnt, &mut items, be_u16);
+    match r {
+        Ok((rest, ())) => {
+            assert!(2 * (cnt as usize) <= n);
+            assert!(items.len() == cnt as usize && rest.len() == n - 2 * cnt as usize);
+            let mut i = 0;
+            while i < 6 {
+                if i < cnt as usize {
+                    assert!(items[i] == u16::from_be_bytes([b[2 * i], b[2 * i + 1]]));
+                }
+                i += 1;
+            }
+        }
+        Err(e) => {
+            assert!(2 * (cnt as u64) > n as u64);
+            std::mem::forget(e);
+        }
+    }
+    assert!(items.capacity() <= 12);
+    std::mem::forget(items);
+}
